@@ -504,6 +504,10 @@ func GenTrip(rng *rand.Rand, thorough bool, emit func(*Sx)) {
 			cfg := fullCfg(li%3 == 0)
 			p := DefaultPlan()
 			p.Sizes = rs
+			if ri%2 == 1 {
+				// read to the end, then refused: Close reports that refusal (in LMTP: as the first recipient heard it)
+				p.Ret = rejectErr()
+			}
 			calls := []TripCall{{Kind: "mail", Arg: "s@x"}, {Kind: "rcpt", Arg: "r1@x"}, {Kind: "rcpt", Arg: "r2@x"},
 				{Kind: "data", Parts: [][]byte{body[:len(body)/3], body[len(body)/3:]}, Closes: 1}, {Kind: "noop"}, {Kind: "quit"}}
 			emit(RunTrip(TripCase{Cfg: cfg, Script: Script{Data: []DataPlan{p}}, LMTP: cfg.LMTP, Calls: calls, Extra: []*Sx{L(A("focus"), A("C16"))}}))
